@@ -40,7 +40,9 @@ for q in ("cohdl.utility.code_writer:TextBlock.__init__", "cohdl.utility.code_wr
 
 # expression / block writers are separate units: here they only produce text
 def _write_model(it, self, *a, **k):
-    return SFmt([Opaque("text-of", self, k.get("target_hint"))])
+    # write(scope, target_hint=None, ...): the hint decides which conversion the text carries
+    hint = a[1] if len(a) > 1 else k.get("target_hint")
+    return SFmt([Opaque("text-of", self, hint)])
 
 
 for cls in (VR.Value, VR.Target, VR.CodeBlock, VR.Constant, VR.Literal):
@@ -188,8 +190,8 @@ def select_shape(n_branches, default):
     def make(env):
         arg = SObj(VR.Value, result=SObj(Signal, _value=SObj(Bit, _val=None), _ref_spec=[]))
         arg.fields["result"].fields["_root"] = arg.fields["result"]
-        br = [(SObj(VR.Constant, result=i), SObj(VR.Value, result=None)) for i in range(n_branches)]
-        return SObj(VR.SelectWith, _arg=arg, _branches=br, _default=SObj(VR.Value, result=None) if default else None, _target=SObj(VR.Target, result=None))
+        br = [(SObj(VR.Constant, result=i), SObj(VR.Value, result=None, f_tag=f"value{i}")) for i in range(n_branches)]
+        return SObj(VR.SelectWith, _arg=arg, _branches=br, _default=SObj(VR.Value, result=None, f_tag="default") if default else None, _target=SObj(VR.Target, result=Opaque("type of the target")))
 
     return Built([], make, lambda asg: "None", lambda asg: None)
 
@@ -205,7 +207,25 @@ def select_spec(n, default):
                 return False
             last = texts[-1].parts[-1]
             # the selected assignment must cover every value of the selector
-            return isinstance(last, str) and last.endswith(" when others;")
+            if not (isinstance(last, str) and last.endswith(" when others;")):
+                return False
+            # every alternative -- the default too -- is written AGAINST THE TARGET (the hint makes the text carry the
+            # conversion to the target's type: resize, cohdl_bool_to_std_logic ...), every choice against the selector
+            real = sx.real_args[0].fields
+            target_type, selector = real["_target"].fields["result"], real["_arg"].fields["result"]
+            values = [v for _, v in real["_branches"]] + ([real["_default"]] if real["_default"] is not None else [])
+            lines = [t for t in texts[1:] if isinstance(t, SFmt)]
+            if len(lines) != len(values):
+                return False
+            for line, value in zip(lines, values):
+                first = line.parts[0]
+                if not (isinstance(first, Opaque) and first.tag == "text-of" and first.deps[0] is value and first.deps[1] is target_type):
+                    return False
+            for line, (choice, _) in zip(lines, real["_branches"]):
+                ch = [p for p in line.parts[1:] if isinstance(p, Opaque)]
+                if not (len(ch) == 1 and ch[0].deps[0] is choice and ch[0].deps[1] is selector):
+                    return False
+            return True
 
         return C.Pred(holds, "with ... select ... when others;")
 
@@ -218,7 +238,7 @@ for n in (0, 1, 2):
         c = Case(f"{n}-branches{'-default' if default else '-nodefault'}", [select_shape(n, default), SCOPE], select_spec(n, default))
         c.native = False
         c.interp_flags = {"opaque_texts_distinct": True}  # choices: the constants 0..n-1, see above
-        c.custom_replay = "contracts.c06_extra.replay_select_no_default"
+        c.custom_replay = "contracts.c06_extra.replay_select_no_default" if not default else "contracts.c06_extra.replay_select_default_hint"
         con.cases.append(c)
 
 
